@@ -76,6 +76,22 @@ CHECKS = {
             '(nothing may survive the call) and the caller mapping is compared before/after; a fixed menu covers Match-dict keys, Regex groups, globals, Vars, Ref.',
             'The reference encodes the reading of the visibility rule in DESIGN.md 3/C07; an unresolved Ref surfaces as KeyError.',
             '3/C07'),
+    'C11': ('fault_enumeration',
+            'bounded exhaustive enumeration of (target spine, destination, spelling, value, missing factory incl. factories failing on their n-th call, unassignable nodes) executed on the real assign/Assign against plain Python nested assignment on a copy',
+            'Every spine of depth <= 2 (thorough: 3) over dict, list, tuple, object, read-only-property object and raising-__setattr__ object x leaf x destination = every '
+            'existing prefix + 14 continuations (overwrite, new key, in/out-of-range and non-integer index, 1-2 absent intermediates) x 5 spellings incl. S-rooted x 5 value kinds '
+            '(incl. self-referential) x 8 missing settings (incl. factory raising on call 1 / 2) x function/spec form: success <=> plain assignment succeeds; canonical cycle-safe '
+            'snapshot equals the reference copy; same object returned; spine nodes keep identity; read-back; factory call count; every failure leaves the snapshot unchanged.',
+            'One-step assignment semantics as listed in the check; wildcard destinations are decided in C14.',
+            '3/C11'),
+    'C12': ('fault_enumeration',
+            'bounded exhaustive enumeration of (target spine, path, spelling, ignore_missing, undeletable nodes) executed on the real delete/Delete against plain Python del on a copy',
+            'Every spine of depth <= 2 (thorough: 3) over the six node kinds x leaf x path = every existing prefix + 13 continuations (present/absent key, index, attribute, absent parent) '
+            'x 5 spellings incl. S-rooted x ignore_missing x function/spec form: same object returned and snapshot equals the copy after plain del; missing final element -> '
+            'PathDeleteError, missing parent -> PathAccessError, silently ignored with ignore_missing; faults (tuple, raising __delattr__, read-only property) -> exception; '
+            'target snapshot unchanged in every non-success case.',
+            'One-step deletion semantics as listed in the check; wildcard deletion is decided in C14.',
+            '3/C12'),
 }
 
 NOT_YET = {}
